@@ -17,6 +17,25 @@ LEVEL_NOTE = ("theorems about the AST-level model; the statement-level regex par
 replay = compile_check.replay
 
 
+def domain_shift_bundle(rng):
+    """a domain-level structure over a strand with a zero-length item BEFORE a paired domain, with lengths chosen so that the
+    symbols shifted by one item would still balance (|l| == |w|): `strand s = clamp x y l y* w`, `domain ..(.).`"""
+    import srcparse
+    ll = rng.randint(2, 5)
+    lx, ly = rng.randint(1, 4), rng.randint(2, 6)
+    zero = rng.choice(['sequence clamp = "0S"', 'sequence clamp = "0N"', 'sequence clamp = "?N" : 0'])
+    pos = rng.choice([0, 1, 2])
+    items = ["x", "y", "l", "y*", "w"]
+    syms = [".", "(", ".", ")", "."]
+    items.insert(pos, "clamp" + rng.choice(["", "*"])); syms.insert(pos, ".")
+    text = ('declare component hp: -> \n%s\nsequence x = "%dN"\nsequence y = "%dN"\nsequence l = "%dN"\nsequence w = "%dN"\n'
+            'strand s = %s\nstructure [%s] Hp = s : domain %s\n' % (zero, lx, ly, ll, ll, " ".join(items), rng.choice(["1nt", "no-opt", "2.5nt"]), "".join(syms)))
+    with core.scratch("pepper_c01d_") as d:
+        with open(d + "/top.comp", "w") as f:
+            f.write(text)
+        return srcparse.bundle_from_dir(d, "top", [])
+
+
 def run(st, tier, seed):
     res = Result("C01")
     res.rule = ("typed generator of component programs: domains with lengths 0..10 over all 15 codes, multipliers, one wildcard, "
@@ -29,6 +48,9 @@ def run(st, tier, seed):
     for i in range(n):
         size = rng.choice([2, 4, 6, 8, 10, 12]) if tier == "quick" else rng.choice([2, 4, 8, 12, 20, 40, 60])
         bundles.append(("c%d" % i, progen.gen_component_bundle(rng, size=size, satisfiable=rng.random() < 0.7)))
+    for k in range(12 if tier == "quick" else 300):
+        bundles.append(("dshift%d" % k, domain_shift_bundle(rng)))
+    res.count("directed:zero-length-item-before-paired-domain-under-domain-structure", 12 if tier == "quick" else 300)
     exb = compile_check.example_bundles(rng, 15 if tier == "quick" else 200, "comp")
     res.count("repository-examples", len(exb))
     bundles += exb
